@@ -555,7 +555,25 @@ func (x *run) parseChecks(seed uint64) {
 		}
 		x.probe("roundtrip_checked")
 	}
-	for _, bad := range []string{`status:`, `:open`, `author:"unterminated`, `sort:id sort:edit`, `sort:nope`, `status:maybe`, `unknown:x`, `no:thing`, `a:b:c:d`, `metadata:k`} {
+	bads := []string{`status:`, `:open`, `author:"unterminated`, `sort:id sort:edit`, `sort:nope`, `status:maybe`, `unknown:x`, `no:thing`, `a:b:c:d`, `metadata:k`}
+	// at most one sort: every pair of sort qualifiers, whatever they are (the default one included),
+	// next to each other or with another qualifier in between
+	var sorts []string
+	for _, k := range []string{"id", "creation", "edit"} {
+		for _, d := range []string{"", "-asc", "-desc"} {
+			sorts = append(sorts, "sort:"+k+d)
+		}
+	}
+	for i, a := range sorts {
+		for j, b := range sorts {
+			if (i+j)%2 == 0 {
+				bads = append(bads, a+" "+b)
+			} else {
+				bads = append(bads, a+" status:open "+b)
+			}
+		}
+	}
+	for _, bad := range bads {
 		if _, err := query.Parse(bad); err == nil {
 			x.violate("malformed-accepted", "malformed query %q was accepted", bad)
 		}
